@@ -15,7 +15,8 @@ CONSTANTS MaxObj,      \* bound on heap size (allocation guard)
           Depth,       \* history length bound
           Acts,        \* enabled action names (configs focus on dict / rows / alias behaviour)
           IdxUse,      \* index kinds offered to index/slice in Next
-          OpsUse       \* in-place operators offered in Next
+          OpsUse,      \* in-place operators offered in Next
+          ObjUse       \* objects offered as target / right operand of in-place operators in Next ({} = all)
 
 VARIABLES heap, bufs, dgs, dss, res, hist, act
 vars == <<heap, bufs, dgs, dss, res, hist, act>>
@@ -45,7 +46,7 @@ Shares(a, b) == Cells(a) \cap Cells(b) # {}
 \* pool of pre-existing objects (tokens distinct inside every component, unsorted, no ties)
 Init ==
   /\ bufs = << Ints(<<3, 1, 2>>), Ints(<<20, 30, 10>>), Ints(<<7, 5>>), Ints(<<9>>),
-               Ints(<<100, 300, 200>>), Ints(<<4, 6, 5>>), Ints(<<2, 0, 1>>), Ints(<<300, 100, 200>>), Ints(<<6, 2, 4>>) >>
+               Ints(<<100, 300, 200>>), Ints(<<4, 6, 5>>), Ints(<<2, 0, 1>>), Ints(<<500, 700, 100>>), Ints(<<6, 2, 4>>) >>
   /\ heap = << mkArr(1, 3, U1("m"), "f8"), mkArr(2, 3, U1("s"), "f8"), mkArr(3, 2, U1("m"), "f8"), mkScal(4, U1("m"), "f8"),
                mkVec(<<5, 6>>, 3, U1("cm"), "f8"), mkArr(7, 3, Unit0, "i8"), mkArr(8, 3, U1("cm"), "f8"), mkArr(9, 3, U1("m"), "f4") >>
   /\ dgs = << [keys |-> <<>>, val |-> <<>>, name |-> "", parent |-> 0], [keys |-> <<>>, val |-> <<>>, name |-> "", parent |-> 0] >>
@@ -383,7 +384,7 @@ Next ==
   \/ \E o \in Os, how \in {"copy", "deepcopy"} : Copy(o, how)
   \/ \E g \in Gs, k \in Keys : DgSortByKey(g, k)
   \/ \E g \in Gs, p \in {<<3, 1, 2>>, <<2, 1>>, <<2, 2, 1>>} : DgSortByIdx(g, p)
-  \/ \E op \in OpsUse, o \in Os, rhs \in {0} \cup Os : IOpArgsOk(o, rhs) /\ IOp(op, o, rhs)
+  \/ \E op \in OpsUse, o \in (IF ObjUse = {} THEN Os ELSE ObjUse \cap Os), rhs \in {0} \cup (IF ObjUse = {} THEN Os ELSE ObjUse \cap Os) : IOpArgsOk(o, rhs) /\ IOp(op, o, rhs)
   \/ \E g, h \in Gs : DgEq(g, h)
   \/ \E d \in Ds, k \in Keys, g \in Gs : DsSet(d, k, g)
   \/ \E d \in Ds, k \in Keys : DsSetBad(d, k, 1) \/ DsUpdateBad(d, k, 5) \/ DsDel(d, k) \/ DsPop(d, k) \/ DsGet(d, k)
@@ -392,7 +393,7 @@ Next ==
 Spec == Init /\ [][Next]_vars
 
 \* exploration bound: keeps the exact arithmetic inside TLC's 32-bit integers
-SmallValues == \A b \in 1..Len(bufs) : \A i \in 1..Len(bufs[b]) : Abs(bufs[b][i][1]) < 100000 /\ bufs[b][i][2] < 100000 /\ Abs(bufs[b][i][3]) < 8
+SmallValues == \A b \in 1..Len(bufs) : \A i \in 1..Len(bufs[b]) : Abs(bufs[b][i][1]) < 30000 /\ bufs[b][i][2] < 30000 /\ Abs(bufs[b][i][3]) < 8
 
 \* ------------------------------------------------------------------ properties
 \* C06: all members of a group have one shape, at every state
